@@ -287,7 +287,7 @@ where
 //@ requires old(self).wf(),
 //@ ensures
 //@     // C14: the session stays usable whatever happens: editor and decoder are put back, the line is well-formed text
-//@     final(self).wf(),   // [C14,C03]
+//@     final(self).wf(),   // [C14,~C03]
 //@     // C14: a failed sink operation is never swallowed.  C15: whatever was written has been flushed
 //@     r is Ok ==> final(self).errs() == old(self).errs(),   // [C14]
 //@     r is Ok ==> (final(self).evs() == old(self).evs() || final(self).evs().len() > 0 && final(self).evs().last() is F),   // [C15]
@@ -382,7 +382,10 @@ where
 //@     assert(evs3 == (if out_h.len() > 0 && out_h.last() != 0x0A { evs_h.push(Ev::W(seq![0x0Du8, 0x0Au8])) } else { evs_h }));
 //@ }
 //@ proof {   // [C06,C13]
-//@     if evs3.len() == evs1.len() { assert(evs3 =~= evs1); }
+//@     if evs3.len() == evs1.len() {
+//@         assert forall|i: int| 0 <= i < evs1.len() implies evs3[i] == evs1[i] by { }
+//@         assert(evs3 =~= evs1);
+//@     }
 //@     assert(is_fresh(term_run(evs3)));
 //@     broadcast use lemma_str_view_bytes;
 //@     lemma_term_push(evs3, Ev::W(self.prompt.spec_bytes()));
@@ -500,7 +503,7 @@ where
 
     fn on_text_input(&mut self, editor: &mut Editor<CommandBuffer>, text: &str) -> Result<(), E> {
 //@ requires old(editor).wf(), text@.len() == 1,
-//@ ensures final(editor).wf(), final(editor).cap() == old(editor).cap(), final(self).rest_eq(old(self)),   // [~C01,~C02,C03,~C05,~C06,~C11,C14,~C17]
+//@ ensures final(editor).wf(), final(editor).cap() == old(editor).cap(), final(self).rest_eq(old(self)),   // [~C01,~C02,~C03,~C05,~C06,~C11,C14,~C17]
 //@     // C05/C14: the edit does not depend on the sink: the character goes in at the cursor iff it fits
 //@     ({ let fits = old(editor).line_bytes().len() + text.spec_bytes().len() <= old(editor).cap();
 //@        let c = old(editor).cur() as int; let l = old(editor).line();
@@ -564,7 +567,7 @@ where
         processor: &mut P,
     ) -> Result<(), E> {
 //@ requires old(editor).wf(), old(self).wf_inner(),
-//@ ensures final(editor).wf(), final(self).wf_inner(), final(editor).cap() == old(editor).cap(),   // [C14,C03,~C01,~C02,~C05,~C06,~C11,~C17]
+//@ ensures final(editor).wf(), final(self).wf_inner(), final(editor).cap() == old(editor).cap(),   // [C14,~C03,~C01,~C02,~C05,~C06,~C11,~C17]
 //@     final(self).editor == old(self).editor, final(self).input_generator == old(self).input_generator,
 //@     r is Ok ==> final(self).sink_ok(old(self)),   // [C14,C15]
 //@     // C01: no key but Enter invokes the handler
@@ -703,7 +706,7 @@ where
         dir: NavigateInput,
     ) -> Result<(), E> {
 //@ requires old(editor).wf(),
-//@ ensures final(editor).wf(), final(editor).cap() == old(editor).cap(), final(self).rest_eq(old(self)),   // [~C01,~C02,C03,~C05,~C06,~C11,C14,~C17]
+//@ ensures final(editor).wf(), final(editor).cap() == old(editor).cap(), final(self).rest_eq(old(self)),   // [~C01,~C02,~C03,~C05,~C06,~C11,C14,~C17]
 //@     final(editor).line_bytes() == old(editor).line_bytes(),   // [C05]
 //@     dir is Backward ==> final(editor).cur() == (if old(editor).cur() > 0 { old(editor).cur() - 1 } else { 0 }) as nat,   // [C05,~C01]
 //@     dir is Forward ==> final(editor).cur() == (if old(editor).cur() < old(editor).line().len() { old(editor).cur() + 1 } else { old(editor).cur() }),   // [C05,~C01]
@@ -733,7 +736,7 @@ where
         dir: NavigateHistory,
     ) -> Result<(), E> {
 //@ requires old(editor).wf(), old(self).wf_inner(),
-//@ ensures final(editor).wf(), final(self).wf_inner(), final(editor).cap() == old(editor).cap(),   // [~C01,~C02,C03,~C05,~C06,~C11,C14,~C17]
+//@ ensures final(editor).wf(), final(self).wf_inner(), final(editor).cap() == old(editor).cap(),   // [~C01,~C02,~C03,~C05,~C06,~C11,C14,~C17]
 //@     final(self).editor == old(self).editor, final(self).input_generator == old(self).input_generator, final(self).prompt == old(self).prompt,
 //@     r is Ok ==> final(self).sink_ok(old(self)),   // [C14,C15]
 //@     // C06: a recalled line (or the empty line past the newest) replaces what the terminal showed; otherwise nothing changes
@@ -797,7 +800,7 @@ where
         editor: &mut Editor<CommandBuffer>,
     ) -> Result<(), E> {
 //@ requires old(editor).wf(),
-//@ ensures final(editor).wf(), final(editor).cap() == old(editor).cap(), final(self).rest_eq(old(self)),   // [~C01,~C02,C03,~C05,~C06,~C11,C14,~C17]
+//@ ensures final(editor).wf(), final(editor).cap() == old(editor).cap(), final(self).rest_eq(old(self)),   // [~C01,~C02,~C03,~C05,~C06,~C11,C14,~C17]
 //@     r is Ok ==> final(self).sink_ok(old(self)),   // [C14,C15]
 //@     // C11 (top level): Tab on a line that is a single partially typed word (up to the blanks right of the cursor)
 //@     // extends it by what the names of C plus the built-in `help` that start with the word have in common --
@@ -929,8 +932,13 @@ where
         if let Some(prompt) = handle.new_prompt {
             self.prompt = prompt;
         }
+//@ let ghost no_fail = handle.writer.errs() == old(self).writer.errs();
 //@ proof {   // [C06,C13]
-//@     if handle.writer.evs().len() == evs0.len() { assert(handle.writer.evs() =~= evs0); }
+//@     // as long as no sink operation failed: the Writer is well-formed and the log only grew
+//@     if no_fail && handle.writer.evs().len() == evs0.len() {
+//@         assert forall|i: int| 0 <= i < evs0.len() implies handle.writer.evs()[i] == evs0[i] by { }
+//@         assert(handle.writer.evs() =~= evs0);
+//@     }
 //@ }
 //@ let ghost evs_h = handle.writer.evs();
 //@ let ghost out_h = handle.writer.out();
@@ -948,7 +956,7 @@ where
 //@ proof {   // [C13]
 //@     // C13: exactly one line break is added, and only when the output is non-empty and does not end with one
 //@     lemma_crlf_bytes();
-//@     assert(evs3 == (if out_h.len() > 0 && out_h.last() != 0x0A { evs_h.push(Ev::W(seq![0x0Du8, 0x0Au8])) } else { evs_h }));
+//@     assert(no_fail ==> evs3 == (if out_h.len() > 0 && out_h.last() != 0x0A { evs_h.push(Ev::W(seq![0x0Du8, 0x0Au8])) } else { evs_h }));
 //@ }
 //@ proof { lemma_term_push(evs3, Ev::F); }   // [C06,C13]
         self.writer.flush()?;
@@ -1059,8 +1067,12 @@ where
             }
         };
 
+//@ let ghost no_fail = writer.errs() == old(self).writer.errs();
 //@ proof {   // [C06,C13]
-//@     if writer.evs().len() == evs0.len() { assert(writer.evs() =~= evs0); }
+//@     if no_fail && writer.evs().len() == evs0.len() {
+//@         assert forall|i: int| 0 <= i < evs0.len() implies writer.evs()[i] == evs0[i] by { }
+//@         assert(writer.evs() =~= evs0);
+//@     }
 //@ }
 //@ let ghost evs_h = writer.evs();
 //@ let ghost out_h = writer.out();
@@ -1078,7 +1090,7 @@ where
 //@ proof {   // [C13]
 //@     // C13: exactly one line break is added, and only when the output is non-empty and does not end with one
 //@     lemma_crlf_bytes();
-//@     assert(evs3 == (if out_h.len() > 0 && out_h.last() != 0x0A { evs_h.push(Ev::W(seq![0x0Du8, 0x0Au8])) } else { evs_h }));
+//@     assert(no_fail ==> evs3 == (if out_h.len() > 0 && out_h.last() != 0x0A { evs_h.push(Ev::W(seq![0x0Du8, 0x0Au8])) } else { evs_h }));
 //@ }
 //@ proof { lemma_term_push(evs3, Ev::F); }   // [C06,C13]
         self.writer.flush()?;
